@@ -86,6 +86,11 @@ ZAlign == [q \in 1..14 |->
                        Comp(IF q <= 7 THEN TBits(Sz(17, 33, FALSE)) ELSE TOct(Sz(3, 4, FALSE)), "man", <<>>),
                        Comp(TInt(Rng(0, 255, FALSE)), "man", <<>>)>>, 3, FALSE)]
 
+\* open types whose bit-packed content (7 bits per character) sweeps through the 127 / 128 octet boundary of the open type's
+\* own length determinant with every amount of padding (see ExtraVals): as extension addition and as extension alternative
+ZOpen == <<TSeq(<<Comp(I07, "man", <<>>), Comp(TStr("ia5", NoSz), "opt", <<>>), Comp(I07, "opt", <<>>)>>, 1, TRUE),
+           TChoice(<<I07, TStr("ia5", NoSz)>>, 1, TRUE)>>
+
 \* mixed types: pseudo-randomly composed trees (depth <= 3) of the constructors - SEQUENCE / SET shapes with OPTIONAL,
 \* DEFAULT and extension additions, CHOICE with extension alternatives, lists, and leaves of every class - so that
 \* combinations of features meet that the systematic families keep apart.  Deterministic: Pick is a fixed mixing function.
@@ -120,7 +125,7 @@ MixType(q, d) ==
 NMix == IF N <= 3 THEN 60 ELSE 300
 ZMix == [q \in 1..NMix |-> MixType(q + 100, 0)]
 
-Zoo == ZInts \o <<TBool, TNull>> \o ZEnums \o ZOcts \o ZBits \o ZStrs \o ZLists \o ZShapes \o ZClassShapes \o ZChoices \o ZNested \o ZAlign \o ZMix \o ZBig
+Zoo == ZInts \o <<TBool, TNull>> \o ZEnums \o ZOcts \o ZBits \o ZStrs \o ZLists \o ZShapes \o ZClassShapes \o ZChoices \o ZNested \o ZAlign \o ZOpen \o ZMix \o ZBig
 IsBig(i) == i > Len(Zoo) - Len(ZBig)
 
 (***************************************************************************)
@@ -224,6 +229,8 @@ ExtraVals(t) ==
              ELSE <<>>)
     [] t.k = "seq" /\ Len(t.comps) = 3 /\ t.comps[2].t.k = "bits" /\ t.comps[2].t.sz.c = "sz" /\ t.comps[2].t.sz.ub = 33 ->
          [j \in 1..17 |-> << <<t.comps[1].t.con.ub>>, <<Ones(16 + j)>>, <<255>> >>]
+    [] t = ZOpen[1] -> [j \in 1..12 |-> << <<5>>, <<ListOfLen(t.comps[2].t, 136 + j)>>, <<6>> >>]
+    [] t = ZOpen[2] -> [j \in 1..12 |-> [i |-> 1, v |-> ListOfLen(t.alts[2], 136 + j)]]
     [] OTHER -> <<>>
 
 \* a sequence, not a set: values of different alternatives are of different kinds and TLC cannot
